@@ -481,7 +481,9 @@ pub fn execute(case: &str) -> String {
 const NAMES_SMALL: [&str; 2] = ["", "a"];
 /// Names chosen so that a lookup that is not exact string equality shows: case, prefix,
 /// trailing dot, the `NamedService::NAME` used by `set_serving`, a non-ASCII name.
-const NAMES: [&str; 8] = ["", "a", "A", "a.b", "a.", "ab", SVC_NAME, "é"];
+const NAMES: [&str; 10] = ["", "a", "A", "a.b", "a.", "ab", SVC_NAME, "é", " ", LONG_NAME];
+/// longer than any inline buffer a lookup might use
+const LONG_NAME: &str = "pkg.sub.VeryLongServiceName0123456789.pkg.sub.VeryLongServiceName0123456789.pkg.sub.VeryLongServiceName0123456789.pkg.sub.VeryLongServiceName0123456789.pkg.sub.VeryLongServiceName0123456789.pkg.sub.VeryLongServiceName0123456789.pkg.sub.VeryLongServiceName0123456789.X";
 
 fn rand_name(rng: &mut Rng) -> String {
     match rng.below(10) {
@@ -677,7 +679,7 @@ pub fn generate(tier: &str, rng: &mut Rng) -> Vec<String> {
         out.push(format!("seq {}", ops_tokens(c)));
     }
     // ---- structured: random op sequences, lengths biased to short and to long
-    let nrand = if thorough { 60000 } else { 6000 };
+    let nrand = if thorough { 120000 } else { 15000 };
     for i in 0..nrand {
         let len = match rng.below(6) {
             0 => rng.range(1, 4),
@@ -697,7 +699,7 @@ pub fn generate(tier: &str, rng: &mut Rng) -> Vec<String> {
     }
     // ---- watcher-centred: one name, many watchers subscribed at different points, bursts of
     // updates between polls (coalescing), clear / re-register cycles
-    let nrand = if thorough { 20000 } else { 2000 };
+    let nrand = if thorough { 60000 } else { 6000 };
     for _ in 0..nrand {
         let n = if rng.chance(1, 3) { e.clone() } else { a.clone() };
         let mut ops = Vec::new();
@@ -734,14 +736,14 @@ pub fn generate(tier: &str, rng: &mut Rng) -> Vec<String> {
         out.push(format!("seq {}", ops_tokens(&ops)));
     }
     // ---- small-scope exhaustive: two names, every sequence up to a length
-    let maxlen = if thorough { 5 } else { 3 };
+    let maxlen = if thorough { 6 } else { 4 };
     for len in 1..=maxlen {
         enumerate(len, &mut out);
     }
     // ---- small-scope exhaustive, deep: one name, two streams, every sequence up to a length,
     // each followed by a drain of both streams and a Check (so every sequence also decides
     // "once updates stop the stream delivers the latest status and then stays silent / is over")
-    let maxlen = if thorough { 8 } else { 5 };
+    let maxlen = if thorough { 8 } else { 6 };
     for len in 0..=maxlen {
         enumerate_one_name(len, &mut out);
     }
@@ -749,7 +751,7 @@ pub fn generate(tier: &str, rng: &mut Rng) -> Vec<String> {
     if thorough {
         gen_conc(rng, 40000, &mut out);
     } else {
-        gen_conc(rng, 600, &mut out);
+        gen_conc(rng, 4000, &mut out);
     }
     out
 }
@@ -769,7 +771,7 @@ fn gen_conc(rng: &mut Rng, count: usize, out: &mut Vec<String>) {
             let len = if big { rng.range(4, 8) } else { rng.range(2, 5) } as usize;
             let mut ops: Vec<Op> = Vec::new();
             // task roles: 0 = writer, 1 = watcher, others drawn
-            let role = if t == 0 { 0 } else if t == 1 { 1 } else { rng.below(4) };
+            let role = if t == 0 { 0 } else if t == 1 { 1 } else { *rng.pick(&[0u64, 0, 1, 2, 3]) };
             match role {
                 0 => {
                     for _ in 0..len {
